@@ -677,7 +677,16 @@ def run_step(p, L, lps, st, ask, reuse_obj=None):
                 return (("violation", "rejected-but-modified", "a rejected mapping changed the circuit"), L, lps, info)
         return None, None, None, info      # the processor may be half-modified: stop the scenario here
     # ---- accepted by the real code
-    after = observe_proc(p)
+    try:
+        after = observe_proc(p)
+    except Exception as e:  # noqa: an accepted composition must leave a usable processor
+        if mp is None:
+            return (("violation", "illegal-mapping-accepted",
+                     f"mapping {ms} is illegal but was accepted (and the result is unusable: {type(e).__name__})"),
+                    None, None, info)
+        return (("violation", "composed-processor-unusable",
+                 f"mapping {ms} was accepted but the composed processor cannot be observed any more "
+                 f"({type(e).__name__}: {str(e)[:120]})"), None, None, info)
     after["ps_conds"] = real_ps_conds(p)
     info["after"] = after
     if mp is None:
@@ -858,6 +867,14 @@ def right_shape(spec):
         return gens.leaf_width(spec["leaf"]), []
     if spec["kind"] == "circ":
         return spec["m"], []
+    if spec["kind"] == "scn":   # heralds of the inner left processor + those appended by the inner compositions
+        total = spec["scn"]["left"]["cs"]
+        hs = [e["mode"] for e in spec["scn"]["left"]["ops"] if e["op"] == "herald"]
+        for st in spec["scn"]["steps"]:
+            _, h2 = right_shape(st["right"])
+            hs += [total + i for i in range(len(h2))]
+            total += len(h2)
+        return total - len(hs), hs
     hs = [e["mode"] for e in spec["extra"] if e["op"] == "herald"]
     return spec["cs"] - len(hs), hs
 
@@ -953,6 +970,125 @@ def name_items(items, L, R, rng):
     return out
 
 
+# ---- right-hand sides that engage the automatic simplification of the inserted segment ----------------------
+def gen_perm_asym(rng, w):
+    """a permutation of w >= 3 modes that is not its own inverse (contains a cycle of length >= 3)"""
+    while True:
+        p = list(range(w))
+        rng.shuffle(p)
+        if any(p[p[i]] != i for i in range(w)):
+            return p
+
+
+def neg_cs(cs):
+    from fractions import Fraction
+    return [cs[0], core.rat(-Fraction(cs[1]))]
+
+
+def gen_ops_simpl(rng, cs, n_items=None):
+    """component-by-component content made of what `simplify` rewrites: layers of numeric phase shifters (some
+    cancelling an earlier one exactly, some null), PERMs of any width and position (mostly not self-inverse, sometimes
+    adjacent to each other, sometimes first or last), and now and then a component that blocks a light path"""
+    ops, phases = [], []
+
+    def ps(mode):
+        u = rng.random()
+        if phases and u < 0.12:
+            phi = neg_cs(rng.choice(phases))
+        elif u < 0.18:
+            phi = [core.rat(1), core.rat(0)]
+        else:
+            phi = gens.gen_cs(rng)
+            phases.append(phi)
+        ops.append([mode, {"t": "PS", "phi": phi}])
+
+    for _ in range(n_items if n_items is not None else rng.randint(3, 7)):
+        u = rng.random()
+        if u < 0.45 or cs < 2:
+            for mo in rng.sample(range(cs), rng.randint(1, cs)):
+                ps(mo)
+        elif u < 0.85:
+            w = rng.randint(2, cs) if (cs < 3 or rng.random() < 0.25) else rng.randint(3, cs)
+            if w >= 3 and rng.random() < 0.85:
+                pv = gen_perm_asym(rng, w)
+            else:
+                pv = list(range(w))
+                rng.shuffle(pv)
+            ops.append([rng.randint(0, cs - w), {"t": "PERM", "perm": pv}])
+        else:
+            leaf = gens.gen_leaf(rng, cs, ("BS", "UH", "U"))
+            ops.append([rng.randint(0, cs - gens.leaf_width(leaf)), leaf])
+    return ops
+
+
+def gen_right_simpl(rng, max_m, plain=False):
+    """a processor built component by component from `gen_ops_simpl` (heralds / ports / post-selection as usual)"""
+    lo = min(3, max_m)
+    extra, ps, cs = [], None, rng.randint(lo, max_m)
+    if not plain:
+        nh_max = rng.choice([0, 0, 1, 2])
+        for _ in range(6):
+            cs = rng.randint(lo, max_m + nh_max)
+            names = ["r" + n for n in NAMES]
+            rng.shuffle(names)
+            extra, ps = gen_extras(rng, cs, nh_max, names, allow_det=False)
+            if lo <= cs - sum(e["op"] == "herald" for e in extra) <= max_m:
+                break
+        for e in list(extra):
+            if e["op"] == "herald" and rng.random() < 0.4:
+                extra.append({"op": "det", "mode": e["mode"], "kind": rng.choice(["threshold", "pnr"])})
+    ops = gen_ops_simpl(rng, cs)
+    return {"kind": "proc", "cs": cs, "whole": False, "ops": ops, "extra": extra,
+            "at": [rng.randint(0, len(ops)) for _ in extra], "ps_ast": ps, "family": "simpl"}
+
+
+def gen_right_nested(rng, max_m):
+    """a processor that is itself the result of a composition through a non-trivial mapping: its component list
+    contains the PERM / inverse PERM that composition left behind"""
+    cs = rng.randint(min(3, max_m), max_m)
+    left = {"cs": cs, "ops": [{"op": "add", "at": off, "leaf": leaf}
+                              for off, leaf in gen_ops_simpl(rng, cs, rng.randint(1, 3))]}
+    steps = []
+    for _ in range(rng.choice([1, 1, 2])):
+        inner = gen_right_simpl(rng, rng.randint(min(2, cs), cs), plain=True)
+        inner["ops"] = inner["ops"][:rng.randint(2, 6)]
+        for _ in range(4):
+            ms = gen_mapping(rng, left, inner)
+            if ms["form"] not in ("int", "named"):
+                break
+        if ms["form"] == "named":
+            ms = {"form": "dict", "items": ms["items"]}
+        steps.append({"right": inner, "map": ms, "keep_port": True})
+    return {"kind": "scn", "scn": {"left": left, "steps": steps}, "family": "nested"}
+
+
+def gen_scenario_simpl(rng, max_cs):
+    """left processor of >= 3 modes (sometimes ending with a PERM, which the composition merges with the PERM of the
+    mapping), then 1-2 adds of simplifier-engaging processors through any kind of mapping"""
+    for _ in range(8):
+        cs = rng.randint(3, max_cs)
+        names = NAMES[:]
+        rng.shuffle(names)
+        ops = [{"op": "add", "at": off, "leaf": leaf} for off, leaf in gen_ops(rng, cs, rng.randint(0, 3))]
+        if rng.random() < 0.35:
+            w = rng.randint(3, cs)
+            ops.append({"op": "add", "at": rng.randint(0, cs - w), "leaf": {"t": "PERM", "perm": gen_perm_asym(rng, w)}})
+        extra, _ = gen_extras(rng, cs, 1, names, allow_ps=rng.random() < 0.3) if rng.random() < 0.5 else ([], None)
+        left = {"cs": cs, "ops": ops + extra}
+        if len(left_shape(left)) >= 3:
+            break
+    else:
+        left = {"cs": cs, "ops": ops}
+    n_conn = len(left_shape(left))
+    steps = []
+    for i in range(rng.choice([1, 1, 2])):
+        mk = gen_right_nested if rng.random() < 0.25 else gen_right_simpl
+        right = mk(rng, min(n_conn, 5))
+        steps.append({"right": right, "map": gen_mapping(rng, left, right), "keep_port": rng.random() < 0.8,
+                      "reuse": False})
+    return {"left": left, "steps": steps}
+
+
 def gen_scenario(rng, max_cs, malformed=False):
     left = gen_left(rng, max_cs)
     n_conn = len(left_shape(left))
@@ -984,6 +1120,7 @@ def resolve_named(scn, rng_seed):
 class Runner:
     def __init__(self, chk):
         self.chk = chk
+        self.shrunk = []
 
     def ask(self, req):
         return self.chk.lean.ask(req)
@@ -1029,6 +1166,17 @@ class Runner:
                 chk.branch("same-object-twice")
             if any(d is not None for d in R["dets"]):
                 chk.branch("herald-detectors")
+            if not R["comp"] and "after" in info:
+                # which rewriting rules of the automatic simplification the inserted segment can trigger
+                if st["right"]["kind"] == "scn":
+                    chk.branch("nested-right")
+                shapes = segment_shapes(inserted_segment(L, R, rep), L["cs"] + len(R["heralds"]))
+                for sh in shapes:
+                    chk.branch(sh)
+                lc = L.get("clist") or []
+                if rep.get("perm") is not None and lc and lc[-1][1] == "PERM":
+                    chk.branch("left-trailing-perm-merged")
+                chk.count("simplifier_shapes", ",".join(sorted(x[5:] for x in shapes)) or "none")
 
 
 def finalize_named(scn, rng):
@@ -1136,6 +1284,11 @@ def handle(chk, runner, scn, record=True):
                          "steps": [(st["right"]["kind"], st["map"].get("v", st["map"].get("items"))) for st in scn["steps"]]})
     if res is not None:
         kind, sig, what = res
+        seen = runner.shrunk
+        if [kind, sig] in seen:      # one minimised replay per defect is reported; do not minimise it again
+            chk.fail(kind, sig, what, {"scenario": scn})
+            return res
+        seen.append([kind, sig])
         small = shrink(scn, fails_with(sig))
         r2 = run_scenario(small, runner.ask)
         chk.fail(kind, sig, (r2[2] if r2 is not None and r2[1] == sig else what), {"scenario": small})
@@ -1156,6 +1309,8 @@ def exhaustive_scenarios(rng, max_cs):
                 hs = hsets[rng.randrange(len(hsets))]
                 variants.append(("proc", hs))
                 variants.append(("proc", hsets[rng.randrange(len(hsets))]))
+                if n >= 2:
+                    variants.append(("simpl", hsets[rng.randrange(len(hsets))] if rng.random() < 0.3 else []))
                 for kind, hs in variants:
                     rcs = n + len(hs)
                     hs = [h for h in hs if h < rcs]
@@ -1163,6 +1318,11 @@ def exhaustive_scenarios(rng, max_cs):
                     rcs = n + len(hs)
                     if kind == "leaf":
                         right = {"kind": "circ", "m": n, "ops": gen_ops(rng, n, 2, ("BS", "PS", "UH", "PERM"))}
+                    elif kind == "simpl":
+                        extra = [{"op": "herald", "mode": h, "exp": rng.randint(0, 1), "name": None} for h in hs]
+                        ops = gen_ops_simpl(rng, rcs)
+                        right = {"kind": "proc", "cs": rcs, "whole": False, "ops": ops, "extra": extra,
+                                 "at": [rng.randint(0, len(ops)) for _ in extra], "ps_ast": None, "family": "simpl"}
                     else:
                         extra = [{"op": "herald", "mode": h, "exp": rng.randint(0, 1), "name": None} for h in hs]
                         rm = [x for x in range(rcs) if x not in hs]
@@ -1205,7 +1365,12 @@ def run(chk: core.Check):
     chk.required_branches = ["form-int", "form-list", "form-dict", "port-names", "rejected", "perm-needed",
                              "perm-at-offset", "no-perm", "right-heralds", "right-heralds-unsorted", "left-heralds",
                              "bare-component", "processor", "right-postselect", "second-composition",
-                             "same-object-twice", "herald-detectors"]
+                             "same-object-twice", "herald-detectors",
+                             "nested-right", "left-trailing-perm-merged", "simp-perm-asym",
+                             "simp-perm-successive-noncommuting", "simp-perm-nonsuccessive", "simp-ps-merge",
+                             "simp-ps-merge-across-perm", "simp-ps-merge-across-asym-perm",
+                             "simp-ps-direction-sensitive", "simp-ps-decoy", "simp-ps-cancel", "simp-ps-null",
+                             "simp-ps-blocked-behind-perm"]
     chk.lean = core.LeanDriver("C10")
     runner = Runner(chk)
     rng = chk.rng
@@ -1224,6 +1389,21 @@ def run(chk: core.Check):
         scn = prepare(gen_scenario(rng, max_cs, malformed=(rng.random() < 0.12)), rng)
         try:
             handle(chk, runner, scn)
+        except core.LeanError:
+            raise
+        except GenInvalid:
+            chk.count("generator", "invalid-construction")
+    # right-hand processors whose content the automatic simplification of the inserted segment rewrites
+    # (phase shifters around PERMs that are not self-inverse, adjacent PERMs, nested compositions)
+    n_s = chk.pick(500, 8000)
+    for i in range(n_s):
+        scn = prepare(gen_scenario_simpl(rng, max_cs), rng)
+        try:
+            for st in scn["steps"]:
+                if st["right"]["kind"] == "scn":   # the inner composition is a case of its own
+                    handle(chk, runner, st["right"]["scn"])
+            handle(chk, runner, scn)
+            chk.count("generator", "simplifier-family")
         except core.LeanError:
             raise
         except GenInvalid:
